@@ -194,10 +194,17 @@ def prefix_test(conds, is_sub):
         if e[0] in ("pure", "call") and short(e[1]) in ("eq", "ne") and len(e[2]) == 2:
             want = t is True if short(e[1]) == "eq" else t is False
             sides = e[2]
-            sub_side = [s for s in sides if mentions(s, is_sub) and pathq.mentions_call(s, lambda y: short(y[1]) == "index") is None]
-            msg_side = [s for s in sides if pathq.mentions_call(s, lambda y: short(y[1]) == "index") is not None]
+            def full_range(r):
+                while isinstance(r, tuple) and r and r[0] == "ref":
+                    r = r[1]
+                return (r[0] == "agg" and (r[2] or "").endswith("RangeFull")) or (r[0] == "const" and "RangeFull" in str(r[1]))
+            def partial_index(y):
+                return short(y[1]) == "index" and len(y[2]) > 1 and not full_range(y[2][1])
+            # the subscription side is the whole subscription (`sub`, `sub.as_slice()`, `sub[..]`); the message side is a proper slice
+            sub_side = [s for s in sides if mentions(s, is_sub) and pathq.mentions_call(s, partial_index) is None]
+            msg_side = [s for s in sides if pathq.mentions_call(s, partial_index) is not None]
             if want and sub_side and msg_side:
-                ix = pathq.mentions_call(msg_side[0], lambda y: short(y[1]) == "index")
+                ix = pathq.mentions_call(msg_side[0], partial_index)
                 r = ix[2][1]
                 sliced_first = mentions(ix[2][0], first_src)
                 def sub_len(x):
